@@ -261,6 +261,8 @@ def run(ctx, rep):
         ctx.release(cfg)
     from . import affine_rules
     naff = affine_rules.check_configs(ctx, rep, cfgs)
+    nsch = affine_rules.check_sched_configs(ctx, rep, cfgs)
+    rep.floor("C12.R6", "tweakey schedule loops compared with the shipped configuration", nsch, 10)
     rep.floor("C12.R5", "block functions whose linear layer was compared with the shipped configuration", naff, 20)
     rep.floor("C12.R1", "unit x configuration gcc witnesses", len(res), 18 * 2)
     rep.floor("C12.R2", "function summaries compared across configurations", ncmp, 300)
